@@ -109,8 +109,14 @@ def run(ctx):
     for st in ("initial", "expression"):
         sub = cases if st == "initial" else cases[:len(cases) // 3]
         model = drv.ask([f"scan {st} {hx(c)}" for c in sub])
+        timeouts = 0
         for c, m_ in zip(sub, model):
-            r = real_scan(st, c)
+            if timeouts >= 8:
+                s1.count("not-run-after-8-timeouts")
+                continue
+            # the first hang is given 5 s; once one is on record the later ones are cut short
+            r = real_scan(st, c, timeout=5 if timeouts == 0 else 1)
+            timeouts += r == "TIMEOUT"
             s1.cases += 1
             s1.nontrivial.add((st, r.split(" ")[0] + (r.split(" ")[1][:12] if r.startswith("err") else ""), min(len(c), 12)))
             s1.count(st + ":" + r.split(" ")[0])
@@ -136,8 +142,13 @@ def run(ctx):
         ln = rng.randrange(1, 30)
         seqs.append([(t, rng.choice(VALS.get(t, [""]))) for t in (rng.choice(types) for _ in range(ln))])
     model = drv.ask(["ptoks " + " ".join(f"{t}:{hx(v)}" for t, v in sq) for sq in seqs])
+    timeouts = 0
     for sq, m_ in zip(seqs, model):
-        r = real_ptoks(sq)
+        if timeouts >= 8:
+            s2.count("not-run-after-8-timeouts")
+            continue
+        r = real_ptoks(sq, timeout=5 if timeouts == 0 else 1)
+        timeouts += r == "TIMEOUT"
         s2.cases += 1
         s2.nontrivial.add((r.split(" ")[0], tuple(t for t, _ in sq[:3])))
         s2.count(r.split(" ")[0] + (":" + r.split(" ")[1] if r.startswith("exc") else ""))
